@@ -35,6 +35,8 @@ VARIABLES
     punch,      \* types.ShouldPunchHoles
     preload,    \* Server.preload
     cleaner,    \* background cleaner / delete flow: [st, name]
+    lm,         \* UpdateLUNMap in progress: [st, pre, files, uidx] (between its two locked sections)
+    stale,      \* files were replaced under the open replica (rebuild sync); cleared by the next load
     res,        \* result class of the last call: "ok" | "refused"
     out,        \* output of the last call (read data)
     op,         \* the last call (name + arguments) -- observation only
@@ -42,7 +44,7 @@ VARIABLES
     usnap       \* HISTORY: retained user snapshot |-> image when it was taken
 
 vars == <<disks, headN, chain, loc, snapIdx, holeQ, size, open, mode, rebuilding,
-          dirty, rev, checkpoint, punch, preload, cleaner, res, out, op, ref, usnap>>
+          dirty, rev, checkpoint, punch, preload, cleaner, lm, stale, res, out, op, ref, usnap>>
 
 persistent == <<disks, headN, size, rebuilding, rev, checkpoint>>
 
@@ -53,6 +55,13 @@ ZeroBlock == [i \in 1..SPB |-> 0]
 EmptyData == [b \in Blocks |-> Hole]
 ZeroLoc   == [b \in Blocks |-> 0]
 ZeroImage == [b \in Blocks |-> ZeroBlock]
+LmIdle    == [st |-> "idle"]
+
+\* A sector of the reference image is -1 after an Unmap: its content is unspecified
+\* until the next write (it may read as zeros or as what an older member holds).
+Wild == -1
+Agree(x, r) == \A i \in 1..SPB : r[i] = Wild \/ x[i] = r[i]
+Mask(x, r)  == [i \in 1..SPB |-> IF r[i] = Wild THEN Wild ELSE x[i]]
 
 HeadName(n) == "h" \o ToString(n)
 HeadF        == HeadName(headN)
@@ -79,6 +88,11 @@ ImageAt(ch, d, k) ==
 
 Live == ImageAt(chain, disks, Len(chain))
 
+\* the retained user snapshots of a chain and their images (taken from the files)
+UserImages(ch, d) ==
+    [u \in {ch[i] : i \in {k \in 1..Len(ch) : d[ch[k]].user /\ ~d[ch[k]].removed}} |->
+        ImageAt(ch, d, IdxOf(ch, u))]
+
 \* the parent walk of readMetadata/openLiveChain: base .. n
 RECURSIVE PathTo(_, _)
 PathTo(d, n) == IF n \notin DOMAIN d THEN <<>>
@@ -87,6 +101,13 @@ PathTo(d, n) == IF n \notin DOMAIN d THEN <<>>
 
 LastUserIdx(ch, d) ==
     LET S == {i \in 1..Len(ch) : d[ch[i]].user} IN IF S = {} THEN 0 ELSE SetMax(S)
+
+\* is the parent walk from n well-founded (every member present, no cycle)?
+RECURSIVE WalkOK(_, _, _)
+WalkOK(d, n, k) == IF k = 0 \/ n \notin DOMAIN d THEN FALSE
+                   ELSE IF d[n].parent = "" THEN TRUE
+                   ELSE WalkOK(d, d[n].parent, k - 1)
+LoadOK(d, hn) == WalkOK(d, HeadName(hn), Cardinality(DOMAIN d))
 
 \* ---- lookup / read through the block map (diffDisk.lookup, fullReadAt) ----
 LookupT(ch, d, lc, b) ==
@@ -230,6 +251,8 @@ Init0(nb, pu) ==
     /\ preload = TRUE
     /\ punch = pu
     /\ cleaner = [st |-> "idle", name |-> ""]
+    /\ lm = LmIdle
+    /\ stale = FALSE
     /\ res = "ok"
     /\ out = <<>>
     /\ op = [name |-> "Init"]
@@ -242,7 +265,7 @@ Called(name, args) == op' = [name |-> name, args |-> args]
 
 Refuse == /\ res' = "refused" /\ out' = <<>>
           /\ UNCHANGED <<disks, headN, chain, loc, snapIdx, holeQ, size, open, mode,
-                         rebuilding, dirty, rev, checkpoint, punch, preload, cleaner,
+                         rebuilding, dirty, rev, checkpoint, punch, preload, lm, stale, cleaner,
                          ref, usnap>>
 
 \* ---- data path --------------------------------------------------------------
@@ -270,7 +293,7 @@ Write(s0, n, v) ==
             /\ res' = IF WriteOK THEN "ok" ELSE "refused"
             /\ out' = <<>>
             /\ UNCHANGED <<headN, chain, snapIdx, size, open, mode, rebuilding,
-                           checkpoint, punch, preload, cleaner, usnap>>
+                           checkpoint, punch, preload, lm, stale, cleaner, usnap>>
 
 \* Server.ReadAt: served in any mode while open; the lookups are cached
 Read(s0, n) ==
@@ -281,8 +304,38 @@ Read(s0, n) ==
             /\ loc' = CacheLookups(chain, disks, loc, Touched(s0, n))
             /\ res' = "ok"
             /\ UNCHANGED <<disks, headN, chain, snapIdx, holeQ, size, open, mode,
-                           rebuilding, dirty, rev, checkpoint, punch, preload, cleaner,
+                           rebuilding, dirty, rev, checkpoint, punch, preload, lm, stale, cleaner,
                            ref, usnap>>
+
+\* Server.Unmap -> Replica.Unmap -> diffDisk.Unmap: the byte range is punched out of
+\* every member above the newest user snapshot, the head included; the block map is
+\* not touched and there is no mode check.  A fully covered block is deallocated, a
+\* partly covered one keeps its extent with the covered sectors zeroed.  What the
+\* range reads afterwards is unspecified (zeros through the map, possibly an older
+\* member's data after the next load): the reference image gets wildcards.
+UnmapBlock(blk, b, s0, n) ==
+    IF blk = Hole \/ FullyCovered(b, s0, n) THEN Hole
+    ELSE [i \in 1..SPB |-> LET s == b * SPB + (i - 1)
+                           IN IF s >= s0 /\ s < s0 + n THEN 0 ELSE blk[i]]
+
+Unmap(s0, n) ==
+    /\ Called("Unmap", [s0 |-> s0, n |-> n])
+    /\ n > 0 /\ s0 >= 0 /\ s0 + n <= size * SPB
+    /\ IF ~open THEN Refuse
+       ELSE LET B == Touched(s0, n)
+                above == IF "unmapAllFiles" \in Bug THEN Range(chain)
+                         ELSE {chain[i] : i \in (snapIdx + 1)..Len(chain)}
+            IN  /\ disks' = [m \in DOMAIN disks |->
+                               IF m \in above
+                               THEN [disks[m] EXCEPT !.data =
+                                       [b \in Blocks |-> IF b \in B THEN UnmapBlock(@[b], b, s0, n)
+                                                         ELSE @[b]]]
+                               ELSE disks[m]]
+                /\ dirty' = TRUE
+                /\ ref' = Overlay(ref, s0, n, Wild)
+                /\ res' = "ok" /\ out' = <<>>
+                /\ UNCHANGED <<headN, chain, loc, snapIdx, holeQ, size, open, mode, rebuilding,
+                               rev, checkpoint, punch, preload, cleaner, lm, stale, usnap>>
 
 \* ---- chain management -------------------------------------------------------
 SnapFile(x) == "s-" \o x
@@ -308,7 +361,7 @@ Snapshot(x, user) ==
                  /\ disks' = [n \in DOMAIN disks \ {s} |-> disks[n]]
                  /\ res' = "refused" /\ out' = <<>>
                  /\ UNCHANGED <<headN, chain, loc, snapIdx, holeQ, size, open, mode,
-                                rebuilding, dirty, rev, checkpoint, punch, preload,
+                                rebuilding, dirty, rev, checkpoint, punch, preload, lm, stale,
                                 cleaner, ref, usnap>>
             ELSE
             /\ disks' = d1
@@ -316,12 +369,13 @@ Snapshot(x, user) ==
             /\ chain' = Append([chain EXCEPT ![T] = s], nh)
             /\ snapIdx' = IF user THEN T ELSE snapIdx
             /\ usnap' = IF user THEN [n \in DOMAIN usnap \cup {s} |->
-                                        IF n = s THEN Live ELSE usnap[n]]
+                                        IF n = s THEN [b \in Blocks |-> Mask(Live[b], ref[b])]
+                                        ELSE usnap[n]]
                         ELSE usnap
             /\ dirty' = TRUE
             /\ res' = "ok" /\ out' = <<>>
             /\ UNCHANGED <<loc, holeQ, size, open, mode, rebuilding, rev, checkpoint,
-                           punch, preload, cleaner, ref>>
+                           punch, preload, lm, stale, cleaner, ref>>
 
 \* Server.PrepareRemoveDisk: mark a snapshot as removed.  n is a file name.
 Protected(n) == \/ n = HeadF
@@ -334,7 +388,7 @@ PrepareRemove(n) ==
        ELSE IF ~InChain(n) THEN     \* unknown name: silent no-op
             /\ res' = "ok" /\ out' = <<>>
             /\ UNCHANGED <<disks, headN, chain, loc, snapIdx, holeQ, size, open, mode,
-                           rebuilding, dirty, rev, checkpoint, punch, preload, cleaner,
+                           rebuilding, dirty, rev, checkpoint, punch, preload, lm, stale, cleaner,
                            ref, usnap>>
        ELSE IF Protected(n) THEN Refuse
        ELSE /\ disks' = [disks EXCEPT ![n].removed = TRUE]
@@ -343,7 +397,7 @@ PrepareRemove(n) ==
                           THEN [st |-> "prepared", name |-> n] ELSE cleaner
             /\ res' = "ok" /\ out' = <<>>
             /\ UNCHANGED <<headN, chain, loc, snapIdx, holeQ, size, open, mode,
-                           rebuilding, dirty, rev, checkpoint, punch, preload, ref>>
+                           rebuilding, dirty, rev, checkpoint, punch, preload, lm, stale, ref>>
 
 \* The deletion candidates of sync.GetDeleteCandidateChain (as a set)
 Candidates(cp) ==
@@ -362,7 +416,7 @@ CleanerPick(n) ==
     /\ cleaner' = [st |-> "picked", name |-> n]
     /\ res' = "ok" /\ out' = <<>>
     /\ UNCHANGED <<disks, headN, chain, loc, snapIdx, holeQ, size, open, mode, rebuilding,
-                   dirty, rev, checkpoint, punch, preload, ref, usnap>>
+                   dirty, rev, checkpoint, punch, preload, lm, stale, ref, usnap>>
 
 \* sfold child -> parent, out of process, no lock: every block the child holds
 \* overwrites the parent's
@@ -376,7 +430,7 @@ Coalesce(n) ==
                   THEN [st |-> "folded", name |-> n] ELSE cleaner
     /\ res' = "ok" /\ out' = <<>>
     /\ UNCHANGED <<headN, chain, loc, snapIdx, holeQ, size, open, mode, rebuilding,
-                   dirty, rev, checkpoint, punch, preload, ref, usnap>>
+                   dirty, rev, checkpoint, punch, preload, lm, stale, ref, usnap>>
 
 \* Server.RemoveDiffDisk
 RemoveDisk(n) ==
@@ -390,7 +444,7 @@ RemoveDisk(n) ==
             /\ holeQ' = {}
             /\ res' = "ok" /\ out' = <<>>
             /\ UNCHANGED <<headN, chain, loc, snapIdx, size, open, mode, rebuilding,
-                           dirty, rev, checkpoint, punch, preload, cleaner, ref, usnap>>
+                           dirty, rev, checkpoint, punch, preload, lm, stale, cleaner, ref, usnap>>
        ELSE
         LET i   == IdxOf(chain, n)
             c   == chain[i + 1]
@@ -407,7 +461,7 @@ RemoveDisk(n) ==
             /\ cleaner' = IF cleaner.name = n THEN [st |-> "idle", name |-> ""] ELSE cleaner
             /\ res' = "ok" /\ out' = <<>>
             /\ UNCHANGED <<headN, size, open, mode, rebuilding, dirty, rev, checkpoint,
-                           punch, preload, ref>>
+                           punch, preload, lm, stale, ref>>
 
 \* common part of construct(): parent walk + optional preload
 Loaded(d, hn, pl, nb) ==
@@ -420,7 +474,8 @@ Loaded(d, hn, pl, nb) ==
 \* Server.Revert(n): new head on top of n, old head unlinked, reload with preload
 Revert(n) ==
     /\ Called("Revert", [name |-> n])
-    /\ IF ~open \/ n \notin DOMAIN disks \/ n = HeadF THEN Refuse
+    /\ IF ~open \/ n \notin DOMAIN disks \/ n = HeadF
+          \/ ~WalkOK(disks, n, Cardinality(DOMAIN disks)) THEN Refuse
        ELSE
         LET nh == HeadName(headN + 1)
             d2 == [m \in (DOMAIN disks \ {HeadF}) \cup {nh} |->
@@ -435,8 +490,10 @@ Revert(n) ==
             /\ snapIdx' = L.snapIdx
             /\ holeQ' = holeQ \cup L.holes
             /\ ref' = ImageAt(L.chain, d2, Len(L.chain))
-            /\ usnap' = [u \in DOMAIN usnap \cap Range(L.chain) |-> usnap[u]]
+            /\ usnap' = IF stale THEN UserImages(L.chain, d2)
+                        ELSE [u \in DOMAIN usnap \cap Range(L.chain) |-> usnap[u]]
             /\ cleaner' = [st |-> "idle", name |-> ""]
+            /\ lm' = LmIdle /\ stale' = FALSE
             /\ res' = "ok" /\ out' = <<>>
             /\ UNCHANGED <<size, open, mode, rebuilding, dirty, rev, checkpoint, punch,
                            preload>>
@@ -449,7 +506,7 @@ Resize(nb) ==
        ELSE /\ size' = nb
             /\ res' = "ok" /\ out' = <<>>
             /\ UNCHANGED <<disks, headN, chain, loc, snapIdx, holeQ, open, mode,
-                           rebuilding, dirty, rev, checkpoint, punch, preload, cleaner,
+                           rebuilding, dirty, rev, checkpoint, punch, preload, lm, stale, cleaner,
                            ref, usnap>>
 
 \* ---- life cycle ---------------------------------------------------------------
@@ -457,30 +514,41 @@ Close ==
     /\ Called("Close", << >>)
     /\ res' = "ok" /\ out' = <<>>
     /\ IF ~open THEN UNCHANGED <<disks, headN, chain, loc, snapIdx, holeQ, size, open,
-                                 mode, rebuilding, dirty, rev, checkpoint, punch, preload,
+                                 mode, rebuilding, dirty, rev, checkpoint, punch, preload, lm, stale,
                                  cleaner, ref, usnap>>
        ELSE /\ open' = FALSE /\ mode' = "CLOSED" /\ dirty' = FALSE
             /\ holeQ' = {} /\ loc' = ZeroLoc /\ chain' = <<>> /\ snapIdx' = 0
             /\ cleaner' = [st |-> "idle", name |-> ""]
+            /\ lm' = LmIdle
             /\ UNCHANGED <<disks, headN, size, rebuilding, rev, checkpoint, punch,
-                           preload, ref, usnap>>
+                           preload, stale, ref, usnap>>
 
 Open ==
     /\ Called("Open", [preload |-> preload])
-    /\ IF open THEN Refuse
+    /\ IF open \/ ~LoadOK(disks, headN) THEN Refuse
        ELSE LET L == Loaded(disks, headN, preload, size)
             IN  /\ open' = TRUE /\ mode' = "INIT"
                 /\ chain' = L.chain /\ loc' = L.loc /\ snapIdx' = L.snapIdx
                 /\ holeQ' = L.holes
+                /\ stale' = FALSE
+                /\ ref' = IF stale THEN ImageAt(L.chain, disks, Len(L.chain)) ELSE ref
+                /\ usnap' = IF stale THEN UserImages(L.chain, disks) ELSE usnap
                 /\ res' = "ok" /\ out' = <<>>
                 /\ UNCHANGED <<disks, headN, size, rebuilding, dirty, rev, checkpoint,
-                               punch, preload, cleaner, ref, usnap>>
+                               punch, preload, lm, cleaner>>
 
 \* Server.Reload: a new Replica object over the same directory; mode kept;
 \* switches reclamation on.  (Environment assumption: no punch is in flight.)
 Reload ==
     /\ Called("Reload", [preload |-> preload])
     /\ IF ~open THEN Refuse
+       ELSE IF ~LoadOK(disks, headN) THEN
+            \* the new Replica cannot be built: the old one stays, reclamation is switched off
+            /\ punch' = FALSE
+            /\ res' = "refused" /\ out' = <<>>
+            /\ UNCHANGED <<disks, headN, chain, loc, snapIdx, holeQ, size, open, mode,
+                           rebuilding, dirty, rev, checkpoint, preload, cleaner, lm, stale,
+                           ref, usnap>>
        ELSE /\ holeQ = {}
             /\ punch' = TRUE
             /\ LET ch == PathTo(disks, HeadF)
@@ -489,29 +557,32 @@ Reload ==
                   /\ snapIdx' = LastUserIdx(ch, disks)
                   \* preload runs with ShouldPunchHoles already TRUE
                   /\ holeQ' = IF preload THEN PreloadHolesP(ch, disks, size, TRUE) ELSE {}
+                  /\ ref' = IF stale THEN ImageAt(ch, disks, Len(ch)) ELSE ref
+                  /\ usnap' = IF stale THEN UserImages(ch, disks) ELSE usnap
+            /\ stale' = FALSE /\ lm' = LmIdle
             /\ res' = "ok" /\ out' = <<>>
             /\ UNCHANGED <<disks, headN, size, open, mode, rebuilding, dirty, rev,
-                           checkpoint, preload, cleaner, ref, usnap>>
+                           checkpoint, preload, cleaner>>
 
 SetPreload(p) ==
     /\ Called("SetPreload", [p |-> p])
     /\ preload' = p /\ res' = "ok" /\ out' = <<>>
     /\ UNCHANGED <<disks, headN, chain, loc, snapIdx, holeQ, size, open, mode, rebuilding,
-                   dirty, rev, checkpoint, punch, cleaner, ref, usnap>>
+                   dirty, rev, checkpoint, punch, cleaner, lm, stale, ref, usnap>>
 
 \* the process-global switch types.ShouldPunchHoles (sync.Task sets it)
 SetPunch(p) ==
     /\ Called("SetPunch", [p |-> p])
     /\ punch' = p /\ res' = "ok" /\ out' = <<>>
     /\ UNCHANGED <<disks, headN, chain, loc, snapIdx, holeQ, size, open, mode, rebuilding,
-                   dirty, rev, checkpoint, preload, cleaner, ref, usnap>>
+                   dirty, rev, checkpoint, preload, lm, stale, cleaner, ref, usnap>>
 
 SetMode(m) ==
     /\ Called("SetMode", [mode |-> m])
     /\ IF ~open \/ m \notin {"RW", "WO"} THEN Refuse
        ELSE /\ mode' = m /\ res' = "ok" /\ out' = <<>>
             /\ UNCHANGED <<disks, headN, chain, loc, snapIdx, holeQ, size, open, rebuilding,
-                           dirty, rev, checkpoint, punch, preload, cleaner, ref, usnap>>
+                           dirty, rev, checkpoint, punch, preload, lm, stale, cleaner, ref, usnap>>
 
 \* Server.SetRebuilding: true only from open/dirty, false only from rebuilding
 SetRebuilding(r) ==
@@ -519,14 +590,14 @@ SetRebuilding(r) ==
     /\ IF ~open \/ (r /\ rebuilding) \/ (~r /\ ~rebuilding) THEN Refuse
        ELSE /\ rebuilding' = r /\ res' = "ok" /\ out' = <<>>
             /\ UNCHANGED <<disks, headN, chain, loc, snapIdx, holeQ, size, open, mode,
-                           dirty, rev, checkpoint, punch, preload, cleaner, ref, usnap>>
+                           dirty, rev, checkpoint, punch, preload, lm, stale, cleaner, ref, usnap>>
 
 SetCheckpoint(n) ==
     /\ Called("SetCheckpoint", [name |-> n])
     /\ IF ~open THEN Refuse
        ELSE /\ checkpoint' = n /\ res' = "ok" /\ out' = <<>>
             /\ UNCHANGED <<disks, headN, chain, loc, snapIdx, holeQ, size, open, mode,
-                           rebuilding, dirty, rev, punch, preload, cleaner, ref, usnap>>
+                           rebuilding, dirty, rev, punch, preload, lm, stale, cleaner, ref, usnap>>
 
 \* Server.SetRevisionCounter: only while RW
 SetRev(c) ==
@@ -534,7 +605,7 @@ SetRev(c) ==
     /\ IF ~open \/ mode # "RW" THEN Refuse
        ELSE /\ rev' = c /\ res' = "ok" /\ out' = <<>>
             /\ UNCHANGED <<disks, headN, chain, loc, snapIdx, holeQ, size, open, mode,
-                           rebuilding, dirty, checkpoint, punch, preload, cleaner, ref, usnap>>
+                           rebuilding, dirty, checkpoint, punch, preload, lm, stale, cleaner, ref, usnap>>
 
 \* ---- the hole puncher goroutine ---------------------------------------------
 PunchOne(e) ==
@@ -545,40 +616,142 @@ PunchOne(e) ==
                 ELSE disks
     /\ res' = "ok" /\ out' = <<>>
     /\ UNCHANGED <<headN, chain, loc, snapIdx, size, open, mode, rebuilding, dirty, rev,
-                   checkpoint, punch, preload, cleaner, ref, usnap>>
+                   checkpoint, punch, preload, lm, stale, cleaner, ref, usnap>>
+
+\* ---- rebuild, replica side ---------------------------------------------------
+\* The sync agent (ssync receiver, another goroutine, no Server lock) overwrites or
+\* creates snapshot file n and its metadata with the healthy replica's.  Environment:
+\* only while the replica is marked rebuilding and reclamation is off (sync.AddReplica
+\* switches it off before anything else).  The open replica's view is stale until the
+\* next load.
+SyncFile(n, rec) ==
+    /\ Called("SyncFile", [name |-> n, parent |-> rec.parent, user |-> rec.user,
+                            removed |-> rec.removed, data |-> rec.data])
+    /\ rebuilding /\ ~punch /\ holeQ = {}
+    /\ n # HeadF
+    /\ disks' = [m \in DOMAIN disks \cup {n} |-> IF m = n THEN rec ELSE disks[m]]
+    /\ stale' = TRUE
+    /\ res' = "ok" /\ out' = <<>>
+    /\ UNCHANGED <<headN, chain, loc, snapIdx, holeQ, size, open, mode, rebuilding, dirty,
+                   rev, checkpoint, punch, preload, cleaner, lm, ref, usnap>>
+
+\* the merge of UpdateLUNMap's second section
+\* ("mergeTakesScan": a merge that trusts the scan even where a write arrived after it)
+MergeLoc(pre, lc) == [b \in Blocks |-> IF pre[b] = 0 \/ (lc[b] > pre[b] /\ "mergeTakesScan" \notin Bug)
+                                       THEN lc[b] ELSE pre[b]]
+MergeHoles(pre, lc, files, uidx) ==
+    IF ~punch THEN {}
+    ELSE {<<files[pre[b]], b>> : b \in {bb \in Blocks : pre[bb] # 0 /\ lc[bb] > pre[bb] /\ pre[bb] > uidx}}
+
+\* Server.UpdateLUNMap, first locked section + PreloadLunMap on a private copy of the
+\* volume with an empty map (the scan itself runs without the lock; modelled as atomic,
+\* DESIGN.md 3.1)
+LunMapScan ==
+    /\ Called("LunMapScan", << >>)
+    /\ IF ~open THEN Refuse
+       ELSE /\ lm' = [st |-> "scanned", pre |-> PreloadLoc(chain, disks, size), files |-> chain,
+                      uidx |-> LastUserIdx(chain, disks)]
+            /\ holeQ' = holeQ \cup PreloadHoles(chain, disks, size)
+            /\ res' = "ok" /\ out' = <<>>
+            /\ UNCHANGED <<disks, headN, chain, loc, snapIdx, size, open, mode, rebuilding,
+                           dirty, rev, checkpoint, punch, preload, cleaner, stale, ref, usnap>>
+
+\* second locked section: entries the live map lacks (or holds older) come from the
+\* scan; where the live map is newer the scanned owner loses the block
+LunMapMerge ==
+    /\ Called("LunMapMerge", << >>)
+    /\ lm.st = "scanned" /\ open
+    /\ loc' = MergeLoc(lm.pre, loc)
+    /\ holeQ' = holeQ \cup MergeHoles(lm.pre, loc, lm.files, lm.uidx)
+    /\ lm' = LmIdle
+    /\ res' = "ok" /\ out' = <<>>
+    /\ UNCHANGED <<disks, headN, chain, snapIdx, size, open, mode, rebuilding, dirty, rev,
+                   checkpoint, punch, preload, cleaner, stale, ref, usnap>>
+
+\* Server.UpdateLUNMap with nothing running between its two sections
+UpdateLUNMap ==
+    /\ Called("UpdateLUNMap", << >>)
+    /\ lm.st = "idle"
+    /\ IF ~open THEN Refuse
+       ELSE LET pre == PreloadLoc(chain, disks, size) IN
+            /\ loc' = MergeLoc(pre, loc)
+            /\ holeQ' = holeQ \cup PreloadHoles(chain, disks, size)
+                              \cup MergeHoles(pre, loc, chain, LastUserIdx(chain, disks))
+            /\ res' = "ok" /\ out' = <<>>
+            /\ UNCHANGED <<disks, headN, chain, snapIdx, size, open, mode, rebuilding, dirty, rev,
+                           checkpoint, punch, preload, cleaner, lm, stale, ref, usnap>>
+
+\* Server.ReplaceDisk(target, source): target's image becomes a hard link of source's,
+\* source leaves the chain (its child is re-parented) and is unlinked.  Only RW.  The
+\* image the volume serves is whatever results (a management operation that redefines
+\* it, like Revert).  The specification requires a refusal without effect when source
+\* is the head (the head would be unlinked) or equals target (the image would be
+\* unlinked before the link fails); "replaceUnchecked" = as coded.
+ReplaceDisk(t, src) ==
+    /\ Called("ReplaceDisk", [target |-> t, source |-> src])
+    /\ IF ~open \/ mode # "RW" \/ t = HeadF \/ src \notin DOMAIN disks THEN Refuse
+       ELSE IF (src = HeadF \/ src = t) /\ "replaceUnchecked" \notin Bug THEN Refuse
+       ELSE IF src = t THEN     \* as coded: target unlinked, then the link fails
+            /\ disks' = [m \in DOMAIN disks \ {t} |-> disks[m]]
+            /\ res' = "refused" /\ out' = <<>> /\ holeQ' = {}
+            /\ UNCHANGED <<headN, chain, loc, snapIdx, size, open, mode, rebuilding, dirty,
+                           rev, checkpoint, punch, preload, cleaner, lm, stale, ref, usnap>>
+       ELSE
+        LET i   == IdxOf(chain, src)
+            T   == Len(chain)
+            \* (environment: t names an existing file; otherwise an image without metadata appears)
+            d1  == IF t \in DOMAIN disks THEN [disks EXCEPT ![t].data = disks[src].data] ELSE disks
+            ch2 == IF i = 0 THEN chain ELSE SeqRemove(chain, i)
+            d2  == [m \in DOMAIN d1 \ {src} |->
+                      IF i # 0 /\ i < T /\ m = chain[i + 1]
+                      THEN [d1[m] EXCEPT !.parent = disks[src].parent] ELSE d1[m]]
+            lu  == LastUserIdx(ch2, d2)
+        IN  /\ disks' = d2
+            /\ chain' = ch2
+            /\ loc' = IF i = 0 THEN loc
+                      ELSE [b \in Blocks |-> IF loc[b] >= i THEN loc[b] - 1 ELSE loc[b]]
+            /\ snapIdx' = IF i = 0 THEN snapIdx ELSE IF lu # 0 THEN lu ELSE snapIdx
+            /\ holeQ' = {}
+            /\ ref' = ImageAt(ch2, d2, Len(ch2))
+            /\ usnap' = UserImages(ch2, d2)
+            /\ cleaner' = [st |-> "idle", name |-> ""]
+            /\ res' = "ok" /\ out' = <<>>
+            /\ UNCHANGED <<headN, size, open, mode, rebuilding, dirty, rev, checkpoint,
+                           punch, preload, lm, stale>>
 
 -----------------------------------------------------------------------------
 (* Invariants *)
 
 \* C01: what the engine reads through its block map is the reference image
-ReadBack == open => \A b \in Blocks : b < size => ReadBlock(b) = ref[b]
+Fresh == open /\ ~stale
+ReadBack == Fresh => \A b \in Blocks : b < size => Agree(ReadBlock(b), ref[b])
 \* ... and so is the plain image of the chain (independent of the map)
-LiveIsRef == open => \A b \in Blocks : b < size => Live[b] = ref[b]
+LiveIsRef == Fresh => \A b \in Blocks : b < size => Agree(Live[b], ref[b])
 \* the map never points below a newer holder
-LocSound == open => \A b \in Blocks :
+LocSound == Fresh => \A b \in Blocks :
                 loc[b] # 0 => HolderUpTo(chain, disks, Len(chain), b) <= loc[b]
 
 \* C06 / C11: every retained user snapshot still has the image it had when taken
 UserSnapImmutable ==
-    open => \A u \in DOMAIN usnap :
+    Fresh => \A u \in DOMAIN usnap :
         /\ InChain(u)
         /\ \A b \in Blocks : b < size =>
-              ImageAt(chain, disks, IdxOf(chain, u))[b] = usnap[u][b]
+              Agree(ImageAt(chain, disks, IdxOf(chain, u))[b], usnap[u][b])
 
 \* every queued punch is harmless whenever it is finally executed
-PunchSafe == \A e \in holeQ : Harmless(chain, disks, usnap, e[1], e[2])
+PunchSafe == ~stale => \A e \in holeQ : Harmless(chain, disks, usnap, e[1], e[2])
 
 \* C12: the open chain is the parent walk from the head; names unique
 ChainWF ==
-    open => /\ chain = PathTo(disks, HeadF)
-            /\ Len(chain) >= 1
-            /\ \A i, j \in 1..Len(chain) : chain[i] = chain[j] => i = j
-            /\ \A i \in 2..Len(chain) : disks[chain[i]].parent = chain[i - 1]
-            /\ disks[chain[1]].parent = ""
+    Fresh => (/\ chain = PathTo(disks, HeadF)
+              /\ Len(chain) >= 1
+              /\ \A i, j \in 1..Len(chain) : chain[i] = chain[j] => i = j
+              /\ \A k \in 2..Len(chain) : disks[chain[k]].parent = chain[k - 1]
+              /\ disks[chain[1]].parent = "")
 
 \* C11: the cleaner never selects a protected member
 CleanerNeverPicks ==
-    open => \A n \in Candidates(checkpoint) :
+    Fresh => \A n \in Candidates(checkpoint) :
         /\ ~Protected(n)
         /\ ~(disks[n].user /\ ~disks[n].removed)
         /\ IdxOf(chain, n) < IdxOf(chain, checkpoint)
@@ -601,6 +774,7 @@ RefusedUnchanged ==
 
 \* C11: deletion steps never change the live image
 DeleteNeutral ==
-    [][ op'.name \in {"PrepareRemove", "Coalesce", "RemoveDisk", "CleanerPick", "PunchOne"}
+    [][ op'.name \in {"PrepareRemove", "Coalesce", "RemoveDisk", "CleanerPick", "PunchOne",
+                      "LunMapScan", "LunMapMerge", "UpdateLUNMap"}
           => ref' = ref ]_vars
 =============================================================================
